@@ -749,6 +749,22 @@ pub const SHAPES: &[&str] = &[
     "and_v(v:pk(@K),and_v(or_c(pk(@K),v:older(144)),or_d(pk(@K),older(144))))",
     "and_v(v:pk(@K),and_v(or_c(pk(@K),v:after(1500)),or_d(pk(@K),after(1500))))",
     "thresh(2,pk(@K),s:pk(@K),sndv:@O)",
+    // a signature-free sibling (hash lock) next to a child whose only dissatisfaction runs through
+    // the ELSE arm of an or_i: whether that dissatisfaction "has a signature" decides what a
+    // non-malleable satisfier may publish when the preimage is missing
+    "and_v(v:pk(@K),or_d(or_i(and_v(v:pk(@K),pk(@K)),pk(@K)),@H))",
+    "and_v(v:pk(@K),andor(or_i(and_v(v:pk(@K),pk(@K)),pk(@K)),pk(@K),@H))",
+    "and_v(or_c(or_i(and_v(v:pk(@K),pk(@K)),pk(@K)),v:@H),pk(@K))",
+    "and_v(v:pk(@K),or_d(or_i(pk(@K),and_v(v:pk(@K),pk(@K))),@H))",
+    // threshold children whose dissatisfaction costs as much as or more than their satisfaction
+    // (hash: 33/33, nl:lock: 1/2, and_b of two: 2/4), in several orders: the worst case of the
+    // threshold is not "the k dearest satisfactions"
+    "thresh(2,pk(@K),a:@H,snl:@O)",
+    "thresh(2,pk(@K),snl:@O,a:@H)",
+    "thresh(2,nl:@O,a:@H,s:pk(@K))",
+    "thresh(2,@H,snl:@A,s:pk(@K))",
+    "thresh(3,pk(@K),a:and_b(nl:@O,anl:@O),a:@H,snl:@O)",
+    "thresh(3,pk(@K),snl:@A,a:@H,a:and_b(nl:@A,anl:@A))",
     "thresh(2,pk(@K),s:pk(@K),aj:and_v(v:pk(@K),@H))",
     "or_d(and_b(pk(@K),a:pkh(@K)),pk(@K))",
     "and_v(v:pk(@K),or_d(pk(@K),@O))",
